@@ -20,7 +20,8 @@ RULE = ("MDP / POMDP specs (stochastic, absorbing states, zero-probability entri
         "the spec, the defining backward recursion, plain-loop averages over identically seeded roll-outs, and a "
         "chain walk for deterministic policy x deterministic MDP. Non-trivial: a trajectory with >=2 steps that hits "
         "the cap or ends in an absorbing state reached through a stochastic transition; distinct by spec hash."
-        ' Also: 1000-2048 simulations, roll-outs of 2049 / 2600 steps, caps of 60-900.')
+        ' Also: 1000-2048 simulations, roll-outs of 2049 / 2600 steps, caps of 60-900.'
+        " calc_returns on tuples and arrays of several dtypes, twice on the same object (caller's array unchanged).")
 ASSUMPTIONS = ["the evaluator's own convention is followed: the closing bare state of a roll-out counts as a visit with "
                "return-to-go 0", "the action_value column for the closing step's action None is not asserted"]
 
